@@ -254,6 +254,8 @@ func genConfig(r *rng) *genCfg {
 	c.AllowVXLANPacketsFromWorkloads = r.chance(30)
 	c.AllowIPIPPacketsFromWorkloads = r.chance(30)
 	c.ServiceLoopPrevention = r.pick([]string{"Drop", "Reject", "Disabled"})
+	c.IstioAmbientModeEnabled = r.chance(30)
+	c.IstioDSCPMark = uint8(r.intn(64))
 	g.cfg = c
 
 	var pf []string
@@ -264,14 +266,14 @@ func genConfig(r *rng) *genCfg {
 	if g.v6() {
 		verT = "V6"
 	}
-	g.term = fmt.Sprintf("(Build_cfg %s %d %d %d %d %s %s %s %s %s %s %d %s %s %d %d %s %s %s %d %s %s %s %s %s %s)",
+	g.term = fmt.Sprintf("(Build_cfg %s %d %d %d %d %s %s %s %s %s %s %d %s %s %d %d %s %s %s %d %s %s %s %s %s %s %s)",
 		verT, g.ml.accept, g.ml.pass, g.ml.s0, g.ml.s1, listTerm(pf), fsTerm(g.fsIn, g.ver), fsTerm(g.fsOut, g.ver),
 		b(c.IPIPEnabled), b(c.VXLANEnabled), b(c.VXLANEnabledV6), c.VXLANPort,
 		b(c.WireguardEnabled), b(c.WireguardEnabledV6), c.WireguardListeningPort, c.WireguardListeningPortV6,
 		b(g.wgRaw), nameBytes(c.WireguardInterfaceName), nameBytes(c.WireguardInterfaceNameV6), g.ml.wg,
 		b(c.OpenStackSpecialCasesEnabled), meta,
 		actTerm(c.EndpointToHostAction, "AReturn"), actTerm(c.FilterAllowAction, "AAccept"),
-		actTerm(c.MangleAllowAction, "AAccept"), actTerm(c.FilterDenyAction, "ADrop"))
+		actTerm(c.MangleAllowAction, "AAccept"), actTerm(c.FilterDenyAction, "ADrop"), b(c.IstioAmbientModeEnabled))
 	return g
 }
 
@@ -533,10 +535,11 @@ func build(r *rng) *world {
 		ipc.NameForMainIPSet(rules.IPSetIDNoFlowOffload):      4,
 		ipc.NameForMainIPSet(rules.IPSetIDNetworkPools):       5,
 		ipc.NameForMainIPSet(rules.IPSetIDDSCPEndpoints):      6,
+		ipc.NameForMainIPSet(rules.IPSetIDAllIstioWEPs):       7,
 	}
 	if g.nft {
 		for n, id := range map[string]int{rules.IPSetIDAllHostNets: 1, rules.IPSetIDAllVXLANSourceNets: 2, rules.IPSetIDThisHostIPs: 3,
-			rules.IPSetIDNoFlowOffload: 4, rules.IPSetIDNetworkPools: 5, rules.IPSetIDDSCPEndpoints: 6} {
+			rules.IPSetIDNoFlowOffload: 4, rules.IPSetIDNetworkPools: 5, rules.IPSetIDDSCPEndpoints: 6, rules.IPSetIDAllIstioWEPs: 7} {
 			w.setIDs[nftables.LegalizeSetName(ipc.NameForMainIPSet(n))] = id
 		}
 	}
@@ -614,6 +617,7 @@ func build(r *rng) *world {
 	// ---- policy and profile chains
 	for i, id := range normal.ids {
 		w.filter.add(ver, sets, rr.PolicyToIptablesChains(id, normal.pols[i], uint8(ver))...)
+		w.mangle.add(ver, sets, rr.PolicyToIptablesChains(id, normal.pols[i], uint8(ver))...) // for the mangle egress chains
 	}
 	for i, id := range untracked.ids {
 		w.raw.add(ver, sets, rr.PolicyToIptablesChains(id, untracked.pols[i], uint8(ver))...)
@@ -629,6 +633,7 @@ func build(r *rng) *world {
 		}
 		in, out := rr.ProfileToIptablesChains(&types.ProfileID{Name: pid}, prof, uint8(ver))
 		w.filter.add(ver, sets, in, out)
+		w.mangle.add(ver, sets, in, out)
 	}
 	addGroups := func(t *tableAcc, done map[string]bool, groups []*rules.PolicyGroup) {
 		for _, gr := range groups {
@@ -690,6 +695,8 @@ func build(r *rng) *world {
 		fwdTiers, fgroups := normal.tiers(r)
 		addGroups(w.filter, doneF, fgroups)
 		w.filter.add(ver, sets, rr.HostEndpointToFilterChains(n, tiers, fwdTiers, nil, profIDs)...)
+		addGroups(w.mangle, doneM, groups)
+		w.mangle.add(ver, sets, rr.HostEndpointToMangleEgressChains(n, tiers, profIDs)...)
 		if n != anyIface {
 			filtMap[n] = id
 		}
@@ -715,6 +722,16 @@ func build(r *rng) *world {
 	w.filter.add(ver, sets, rr.HostDispatchChains(filtMap, def, true)...)
 	w.raw.add(ver, sets, rr.HostDispatchChains(rawMap, "", false)...)
 	w.mangle.add(ver, sets, rr.FromHostDispatchChains(preMap, preDefault)...)
+	w.mangle.add(ver, sets, rr.ToHostDispatchChains(filtMap, def)...)
+	var dscp []*rules.DSCPRule
+	for k := r.intn(3); k > 0; k-- {
+		src := fmt.Sprintf("10.%d.0.0/16", k)
+		if g.v6() {
+			src = fmt.Sprintf("fd00:%x::/32", k)
+		}
+		dscp = append(dscp, &rules.DSCPRule{SrcAddrs: src, Value: uint8(r.intn(64))})
+	}
+	w.mangle.add(ver, sets, rr.EgressDSCPChain(dscp))
 
 	// ---- the remaining callees of the static chains
 	var blocked []string
@@ -1004,7 +1021,7 @@ func main() {
 		baseTags := []string{flav, fmt.Sprintf("ipv%d", g.ver), "ep-to-host:" + g.cfg.EndpointToHostAction, "filter-allow:" + g.cfg.FilterAllowAction,
 			"mangle-allow:" + g.cfg.MangleAllowAction, "deny:" + g.cfg.FilterDenyAction,
 			fmt.Sprintf("ipip:%v", g.cfg.IPIPEnabled), fmt.Sprintf("vxlan4:%v", g.cfg.VXLANEnabled), fmt.Sprintf("vxlan6:%v", g.cfg.VXLANEnabledV6),
-			fmt.Sprintf("wireguard-raw:%v", g.wgRaw), fmt.Sprintf("openstack:%v", g.cfg.OpenStackSpecialCasesEnabled),
+			fmt.Sprintf("wireguard-raw:%v", g.wgRaw), fmt.Sprintf("openstack:%v", g.cfg.OpenStackSpecialCasesEnabled), fmt.Sprintf("istio:%v", g.cfg.IstioAmbientModeEnabled),
 			fmt.Sprintf("prefixes:%d", len(g.prefixes)), fmt.Sprintf("wildcard-hep:%v", w.wildcard),
 			fmt.Sprintf("workloads:%d", min(len(w.wlNames), 6)), fmt.Sprintf("heps:%d", len(w.hepNames)),
 			fmt.Sprintf("failsafe-in:%d", min(len(g.fsIn), 8)), fmt.Sprintf("failsafe-out:%d", min(len(g.fsOut), 8))}
